@@ -345,7 +345,7 @@ def check(ctx):
                    live=fmt(e.live))
 
     # --------------------------------------------------------------- C17.4
-    _check_prompt(ctx)
+    ctx.section(_check_prompt, ctx)
 
 
 PURE = ("pathlib.PurePath", "pathlib.PurePosixPath",
